@@ -2,7 +2,8 @@
 //! with the matching rule, over a corpus of generated enum definitions (enums_corpus.rs).
 use crate::fw::*;
 use crate::props::c03::candidates;
-use crate::props::enums_corpus::{EnumInfo, CORPUS};
+use crate::props::enums_corpus::EnumInfo;
+use crate::props::enums_fixed::all_enums;
 use crate::refm::decode::is_chardata;
 use crate::refm::mnemonic::ref_match;
 use scpi::parser::tokenizer::Token;
@@ -44,9 +45,10 @@ pub fn run(cfg: &Cfg, rep: &mut Report) {
 /// The corpus workload; also run (shorter) by C03, whose matching rule the derived `from_mnemonic` applies to
 /// character data. `pfx` is the property the signatures are reported under.
 pub fn corpus_stage(cfg: &Cfg, rep: &mut Report, pfx: &'static str, stage: &'static str, reps: u64) {
-    let n_enums = if cfg.tiny { 6 } else { CORPUS.len() as u64 };
+    let corpus = all_enums();
+    let n_enums = if cfg.tiny { 6 } else { corpus.len() as u64 };
     run_cases(cfg, stage, n_enums * reps, rep, |rng, ctx| {
-        let e = &CORPUS[(ctx.index % CORPUS.len() as u64) as usize];
+        let e = corpus[(ctx.index % corpus.len() as u64) as usize];
         let shape = format!("variants={} fields={} suffixed={}", e.mnemonics.len(), e.field.iter().filter(|f| **f).count(), e.mnemonics.iter().filter(|m| m.last().map_or(false, |c| c.is_ascii_digit())).count());
         ctx.count(&format!("enum-shape.variants.{:02}", e.mnemonics.len()));
         let _ = shape;
@@ -136,6 +138,6 @@ pub fn corpus_stage(cfg: &Cfg, rep: &mut Report, pfx: &'static str, stage: &'sta
             ctx.sample(|| jobj(&[("enum", jstr(e.name)), ("mnemonics", jstr(&format!("{:?}", e.mnemonics.iter().map(|m| show(m)).collect::<Vec<_>>())))]));
         }
     });
-    rep.add("corpus.enums", CORPUS.len() as u64);
-    rep.add("corpus.variants", CORPUS.iter().map(|e| e.mnemonics.len() as u64).sum());
+    rep.add("corpus.enums", corpus.len() as u64);
+    rep.add("corpus.variants", corpus.iter().map(|e| e.mnemonics.len() as u64).sum());
 }
